@@ -114,6 +114,30 @@ func clusterCase(prop, id string, r *rng, healthy bool) {
 				ml.VerifMergeState(mn.m, []ml.VerifPushNodeState{{Name: m.claim.Node, Addr: m.claim.Addr, Port: m.claim.Port, Meta: m.claim.Meta,
 					Incarnation: m.claim.Incarnation, State: m.st, Vsn: m.claim.Vsn}})
 			}
+		case k < 56 && len(pool) > 3:
+			// a whole state list in one merge (the receiver holds its lock for all entries): 2-4 state entries
+			var es []cmsg
+			for _, m := range pool {
+				if m.kind == 'e' {
+					es = append(es, m)
+				}
+			}
+			if len(es) >= 2 {
+				cnt := 2 + r.intn(3)
+				var batch []cmsg
+				var rs []ml.VerifPushNodeState
+				var ts []string
+				for j := 0; j < cnt; j++ {
+					m := es[r.intn(len(es))]
+					batch = append(batch, m)
+					rs = append(rs, ml.VerifPushNodeState{Name: m.claim.Node, Addr: m.claim.Addr, Port: m.claim.Port, Meta: m.claim.Meta,
+						Incarnation: m.claim.Incarnation, State: m.st, Vsn: m.claim.Vsn})
+					ts = append(ts, m.token(p))
+				}
+				_ = batch
+				tok = fmt.Sprintf("W:%s:%s", names[x], strings.Join(ts, "+"))
+				ml.VerifMergeState(mn.m, rs)
+			}
 		case k < 60:
 			tok = "N:" + names[x]
 			for _, rec := range ml.VerifSnapshotState(mn.m).Nodes {
